@@ -238,7 +238,7 @@ def main(argv=None):
         print("not reproduced")
         return 0
     quick = a.tier == "quick"
-    ev = common.Evidence(PROP, a.tier, a.seed, "exploration", "seeded permission tables (1..6 entries over an 11-path universe incl. nested, overlapping, duplicated, file-level and dangling entries, all r/w combinations) x seeded histories of permission-checked verbs (CWD CDUP LIST MLSD MLST RETR / MKD RMD DELE RNFR RNTO STOR APPE) with 7 spellings per target from changing working directories; non-trivial = the run contained both a request that must be denied and one that must not; distinct = distinct run digests")
+    ev = common.Evidence(PROP, a.tier, a.seed, "exploration", "seeded permission tables (1..6 entries over an 11-path universe incl. nested, overlapping, duplicated, file-level and dangling entries, all r/w combinations) x seeded histories of permission-checked verbs (CWD CDUP LIST MLSD MLST RETR / MKD RMD DELE RNFR RNTO STOR APPE) with 7 spellings per target from changing working directories; non-trivial = the run contained both a request that must be denied and one that must not; distinct = distinct run digests Transfers may have CWD/CDUP sent between their 1xx mark and the data connection.")
     rep = common.Reporter(PROP, ev)
     deadline = time.time() + (a.budget or (60 if quick else 1200))
     n = 4000 if quick else 500000
